@@ -37,6 +37,9 @@ func plainResult(rng *Rng) wResult {
 
 // c03Controlled: a random schedule over several named queues, every worker stepped point by point.
 func c03Controlled(c *Case, rng *Rng, plain bool) {
+	if tooManyHangs(c) {
+		return
+	}
 	w := newWorld(c, fmt.Sprintf("c03-%d", c.Idx))
 	defer w.close()
 	next := 10
@@ -102,6 +105,9 @@ func c03Controlled(c *Case, rng *Rng, plain bool) {
 // c03Blocked: queue 1's handler is entered and kept open (a hook that hangs, or: fails and sleeps in
 // its back-off) while the other queues receive and execute all their tasks; only then queue 1 goes on.
 func c03Blocked(c *Case, rng *Rng) {
+	if tooManyHangs(c) {
+		return
+	}
 	w := newWorld(c, fmt.Sprintf("c03b-%d", c.Idx))
 	defer w.close()
 	nq := rng.Range(2, 4)
@@ -328,6 +334,9 @@ func spin(d time.Duration) {
 // execution blocks on a channel until every task of the other queues has been executed — the other
 // queues must get there while queue 1 is stalled; then queue 1 is released and everything drains.
 func c03Free(c *Case, rng *Rng) {
+	if tooManyHangs(c) {
+		return
+	}
 	nq := rng.Range(2, 4)
 	perQ := rng.Range(3, 8)
 	var othersDone atomic.Int64
@@ -414,6 +423,9 @@ func c03Free(c *Case, rng *Rng) {
 	deadline := time.Now().Add(20 * time.Second)
 	for othersDone.Load() < othersTotal && time.Now().Before(deadline) {
 		time.Sleep(time.Millisecond)
+	}
+	if othersDone.Load() < othersTotal {
+		hangs.Add(1)
 	}
 	blockedTrace := f.rec.str()
 	for n := 2; n <= nq; n++ {
